@@ -151,6 +151,20 @@ CHECKS = {
             "assumptions": ["functions that by contract wait for the machine (Sync/Async/WaitFor/Ask/Cant/Eval/Dispose...) are not called from inside a handler and 'blocks' is only a verdict for them on a disposed machine", "string parameters receive an existing state name; unknown state names panic by documentation", "functions needing network, environment or dedicated states are listed as skipped in the evidence notes"],
         },
     },
+    "C09": {
+        "parts": [
+            {"pkg": "harness/c09", "instr": {"features": ["net"], "pkgs": ["pkg/rpc"]},
+             "shards": {"quick": 8, "thorough": 16}, "gomaxprocs": 1},
+            {"pkg": "harness/c09", "instr": {"features": ["net", "sync", "go"], "pkgs": ["pkg/rpc", "pkg/machine", "/verif/third_party/rpc2"]},
+             "env": {"C09_PART": "delay"}, "shards": {"quick": 10, "thorough": 10}, "gomaxprocs": 1},
+        ],
+        "budget_s": {"quick": 240, "thorough": 2400},
+        "hard_timeout_s": {"quick": 900, "thorough": 3600},
+        "meta": {
+            "rule": "real source machine + real rpc.Server + real rpc.Client/NetworkMachine over an in-memory network (vnet: the instrumenter rewrites `import \"net\"` of pkg/rpc), each execution in its own testing/synctest bubble (fake time). Part 1 (SEQ): every event history of depth <= 3 (thorough 4) over a 14-letter alphabet (source-side add/remove incl. Multi, Require-rejected and Auto states; add/remove/set issued through the network machine; hold / release of the server->client bytes; cut of the link; 150ms / 5s of time) x 7 (thorough 11) sync configurations (schema / no schema, allow / skip lists, shallow clocks, per-mutation sync, push interval 0 / 1ms / 100ms / 2s); oracle: result of a client-issued mutation = what the source's tracer saw, effect visible in the mirror when the call returns, and a minute after the last event (bytes released) the client is Ready and the mirror equals the source on every synchronised state (parity for shallow clocks); every verdict is re-run and must reproduce. Part 2 (delay-bounded scheduling): 10 focused cases (two of them from the very start of the connection set-up); every lock acquisition and goroutine start of pkg/rpc, pkg/machine and rpc2 is a delay point keyed by source position + hit number; the default schedule plus every single delayed point x {1us, 60ms} (thorough: also every pair) is executed; same oracle",
+            "assumptions": ["with PushInterval 0 (documented: pushes disabled) convergence is only demanded after a final client-issued mutation", "client-issued mutations of states the network machine does not know are skipped (documented panic)", "hold keeps the bytes of the server->client direction back (a stalled link), cut closes both directions (a dropped connection); no byte is ever lost or reordered inside a live link", "part 2 delays stay below the default handler timeout (100ms): a longer stall inside a handler is a handler timeout, not this property's subject", "goroutine scheduling inside a bubble is the Go scheduler's (GOMAXPROCS=1) except for the enumerated delays; verdicts that do not reproduce on an immediate re-run are counted (irreproducible) and not reported"],
+        },
+    },
     "C17": {
         "pkg": "harness/c17",
         "shards": {"quick": 1, "thorough": 1},
